@@ -57,6 +57,7 @@ class Frame:
         self.closure = closure
         self.strong = {}
         self.last_end = None
+        self.yields = None
 
 
 # ----------------------------------------------------------------------------- joins
